@@ -1,4 +1,6 @@
 import ClipVerif.Proofs.C06
+import ClipVerif.Model.RectPoly
+import ClipVerif.Proofs.Rect
 /-
 C06 — rectangle clipping keeps exactly what is inside the rectangle.  Proved: the location algebra
 and the driver's fast paths (everything the clipper decides locally); the winding equality of the
@@ -63,5 +65,48 @@ theorem isEmpty_iff (r : Rect64) : Rect64_IsEmpty r = true ↔ (r.bottom ≤ r.t
 
 example : wf ⟨0, 0, 10, 10⟩ ∧ (getLocation ⟨0, 0, 10, 10⟩ ⟨5, 5⟩).2 = true := by
   refine ⟨by unfold wf; decide, by decide⟩
+
+/-! ### The polygon state machine (model `Model.RectPoly` of `executeInternal`, tied by `models-corr rectpoly`) -/
+
+/-- where a point of a raw result ring can come from: an input vertex lying in the closed rectangle,
+    a corner of the rectangle, or the point `getSegmentIntersection` returned for an input edge and
+    one side of the rectangle -/
+def PolyProvenance (rect : Rect64) (path : Array Point64) (q : Point64) : Prop :=
+  (q ∈ path.toList ∧ rect.left ≤ q.X ∧ q.X ≤ rect.right ∧ rect.top ≤ q.Y ∧ q.Y ≤ rect.bottom) ∨
+  q ∈ Rect64_AsPath rect ∨
+  (∃ a ∈ path.toList, ∃ b ∈ path.toList, ∃ c ∈ Rect64_AsPath rect, ∃ d ∈ Rect64_AsPath rect,
+    (getSegmentIntersection a b c d).2 = true ∧ q = (getSegmentIntersection a b c d).1)
+
+/-- every point of every raw ring built by `executeInternal` has such a provenance — or is the
+    point (0,0).  The exception is real: the state machine ignores the "no intersection" answer at
+    one site (`ip2, _ := getIntersection(…)`) and adds the zero point it got; this only happens when
+    the int64 cross product inside `getSegmentIntersection` wraps (coordinates from 2^32), where it
+    can also index the corner array with location Inside — the known finding
+    site:int64-product-overflow (C03, C13).  The full statement without the exception is false;
+    witness found by the proof attempt: rect (2,2,8,4), path (-3,-2^31),(2^32,1),(-2^31,-1) gives
+    the ring (0,0),(8,-2147483642),(8,2),(2,2). -/
+theorem executePoly_provenance_partial (rect : Rect64) (path : Array Point64) (rings : List (List Point64))
+    (h : Model.executePoly rect path = some rings) :
+    ∀ ring ∈ rings, ∀ q ∈ ring, PolyProvenance rect path q ∨ q = ⟨0, 0⟩ := by
+  intro ring hr q hq
+  rcases Proofs.Rect.executePoly_prov_weak rect path rings h ring hr q hq with h1 | h2 | h3 | h4
+  · exact Or.inl (Or.inl h1)
+  · exact Or.inl (Or.inr (Or.inl h2))
+  · exact Or.inl (Or.inr (Or.inr h3))
+  · exact Or.inr h4
+
+/-- no raw ring repeats a point consecutively -/
+theorem executePoly_no_adjacent_duplicates (rect : Rect64) (path : Array Point64) (rings : List (List Point64))
+    (h : Model.executePoly rect path = some rings) :
+    ∀ ring ∈ rings, ∀ i, i + 1 < ring.length → ring[i]! ≠ ring[i + 1]! := by
+  exact Proofs.Rect.executePoly_noAdj rect path rings h
+
+/-- the only way `executeInternal` can fault (index -1) is a path all of whose vertices lie on the
+    rectangle's boundary — which `Execute`'s "bounds inside the rectangle" shortcut never passes on -/
+theorem executePoly_fault_iff (rect : Rect64) (path : Array Point64) :
+    Model.executePoly rect path = none ↔
+      (3 ≤ path.size ∧ Rect64_IsEmpty rect = false ∧ ∀ p ∈ path.toList, (getLocation rect p).2 = false) := by
+  exact Proofs.Rect.executePoly_fault_iff rect path
+
 
 end C06
